@@ -46,7 +46,7 @@ Definition fell_through (c : cfg) (m0 : N) (res : result) : bool :=
    (the endpoint chains clear accept/pass before jumping to a policy; a set bit means an earlier rule
    already decided and the chain has returned).  All other bits, scratch bits included, are arbitrary. *)
 Definition entry_ok (c : cfg) (a : action) (p : packet) : bool :=
-  mark_clear (pk_mark p) (verdict_mark c a) && N.leb (pk_mark p) M32.
+  mark_clear (pk_mark p) (verdict_mark c a).
 
 Definition ok_outcome (c : cfg) (s : ipsets) (r : rule) (p : packet) (res : result) : bool :=
   if rule_matches s r p
